@@ -24,8 +24,12 @@ import (
 	"testing"
 	"time"
 
+	"github.com/pquerna/otp/totp"
 	%ABIMPORT%
+%EXTRAIMPORTS%
 )
+
+var _ = totp.Validate
 
 var _ = time.Now
 var _ = url.Parse
@@ -52,6 +56,10 @@ type vrScript struct {
 	CtxValues  map[string]interface{}            ` + "`json:\"ctx_values\"`" + `
 	Users      map[string]map[string]interface{} ` + "`json:\"users\"`" + `
 	TimeRel    bool                              ` + "`json:\"time_relative\"`" + `
+	TOTPCodes  []struct {
+		Marker string ` + "`json:\"marker\"`" + `
+		Secret string ` + "`json:\"secret\"`" + `
+	} ` + "`json:\"totp_codes\"`" + `
 	StateTimes map[string]struct {
 		Rel    int64  ` + "`json:\"rel\"`" + `
 		Layout string ` + "`json:\"layout\"`" + `
@@ -129,12 +137,37 @@ func (s *vrState) fixScript() {
 	if sc.TimeRel {
 		s.off = time.Now().UnixNano()
 	}
+	for _, tc := range sc.TOTPCodes {
+		code, err := totp.GenerateCode(tc.Secret, time.Now())
+		if err != nil {
+			continue
+		}
+		sub := func(v string) string { return strings.ReplaceAll(v, tc.Marker, code) }
+		for k, v := range sc.Request.Form {
+			sc.Request.Form[k] = sub(v)
+		}
+		for k, v := range sc.Session {
+			sc.Session[k] = sub(v)
+		}
+		for i := range sc.Calls {
+			if vals, ok := sc.Calls[i].Res["values"].(map[string]interface{}); ok {
+				for k, v := range vals {
+					if str, ok := v.(string); ok {
+						vals[k] = sub(str)
+					}
+				}
+			}
+		}
+	}
 	for k, tv := range sc.StateTimes {
 		lay := tv.Layout
 		if lay == "" {
 			lay = time.RFC3339
 		}
 		val := time.Unix(0, tv.Rel+s.off).UTC().Format(lay)
+		if tv.Layout == "unix" {
+			val = fmt.Sprint(time.Unix(0, tv.Rel+s.off).Unix())
+		}
 		if strings.HasPrefix(k, "cookie:") {
 			sc.Cookie[strings.TrimPrefix(k, "cookie:")] = val
 		} else {
@@ -562,6 +595,7 @@ func TestVerifReplay(t *testing.T) {
 	ab.Config.Core.OneTimeTokenGenerator = %ABQ%NewSha512TokenGenerator()
 	ab.Config.Modules.MailNoGoroutine = true
 %CONFIG%
+%EXTRASETUP%
 	// scripted event handlers: one per (when, event); each answers the next
 	// scripted Fire result (the model's result of the whole FireBefore/FireAfter)
 	for ev := %ABQ%Event(0); ev < 32; ev++ {
